@@ -280,6 +280,11 @@ def gen_bson_core_lines(rng, n):
     for v in (Obj([]), [], [1, 2], [[]], [Obj([])], None, True, 0, b"text", ("b", b"\x01"), ("d", 0x3ff8000000000000),
               Obj([(b"a", Obj([]))]), Obj([(b"a", [])]), Obj([(b"", None)]), Obj([(b"a", [[], [[]], [Obj([]), [1, [2, [3]]]]])])):
         add(v)
+    # member names that are not cstrings (a 0x00 inside, ill-formed UTF-8): refused by both sides since the repair D89, at any depth
+    for k in (b"a\x00b", b"\x00", b"\xff", b"\xc3", b"ok\xed\xa0\x80", b"\xc3\xa9"):
+        add(Obj([(k, 1)]))
+        add(Obj([(b"outer", Obj([(k, [1, 2])]))]))
+        add([Obj([(k, None)])])
     # every integer edge (int32 / int64 boundary with both neighbours; 2^63 … 2^64-1 is refused by both sides), in a document and in an array
     for i in INT_EDGES:
         add(Obj([(b"k", i)]), "j")
@@ -385,7 +390,7 @@ def in_domain(fmt, v):
 
 
 def bson_in_domain(v, depth):
-    """BSON has no unsigned 64-bit integer either; text must be UTF-8; the encoder's default max_nesting_depth is 1024"""
+    """BSON has no unsigned 64-bit integer either; text and element names must be UTF-8, names without 0x00; the encoder's default max_nesting_depth is 1024"""
     if isinstance(v, bool) or v is None:
         return True
     if isinstance(v, int):
@@ -399,7 +404,8 @@ def bson_in_domain(v, depth):
     if isinstance(v, list):
         return depth < 1024 and all(bson_in_domain(x, depth + 1) for x in v)
     if isinstance(v, Obj):
-        return depth < 1024 and all(bson_in_domain(x, depth + 1) for _, x in v.members)
+        # an element name is a cstring: UTF-8 without 0x00 (the encoder refuses anything else since the repair D89)
+        return depth < 1024 and all(b"\x00" not in k and bson_in_domain(k, depth) and bson_in_domain(x, depth + 1) for k, x in v.members)
     if isinstance(v, Tagged):
         return bson_in_domain(v.value, depth)
     return True
